@@ -75,9 +75,14 @@ Col(name, vals) == [name |-> name, vals |-> vals]
 
 \* a stateful numeric transform with a recorded shift (center): the recorded statistic is part of the factor
 ShiftOf(f) == IF "shift" \in DOMAIN f THEN f.shift ELSE 0
+\* a python factor multiplying the same stateful call with itself (I(center(a) * center(a))): every
+\* occurrence of the call shares the one recorded statistic
+PowOf(f) == IF "pw" \in DOMAIN f THEN f.pw ELSE 1
+RECURSIVE IPow(_, _)
+IPow(x, n) == IF n = 0 THEN 1 ELSE x * IPow(x, n - 1)
 EncodeNum(frame, f, kept) ==
   LET c == frame.cols[f.col] IN
-  << Col(f.e, [i \in DOMAIN kept |-> IF kept[i] \in c.nulls THEN NAN ELSE c.num[kept[i]] - ShiftOf(f)]) >>
+  << Col(f.e, [i \in DOMAIN kept |-> IF kept[i] \in c.nulls THEN NAN ELSE IPow(c.num[kept[i]] - ShiftOf(f), PowOf(f))]) >>
 
 \* a null (or unseen) value is the all-zero row of the indicator matrix
 EncodeCat(frame, f, kept, reduced, rec) ==
